@@ -420,7 +420,7 @@ def cases(tier):
                     continue
                 for hp in (0, 1):
                     osets = optsets
-                    if tier == "quick" and (len(blocks) == 2 or rows == "late"):
+                    if tier == "quick" and (blocks != [1] or rows == "late"):
                         osets = [o for o in optsets if len(o) <= 1]
                     if tier == "thorough" and (len(blocks) == 2 or rows == "late"):
                         osets = [o for o in optsets if len(o) <= 2]
